@@ -21,7 +21,10 @@ MANIFEST = dict(
           "frees it is an open finding (reported, excluded from the theorems by the `uaf` flag)"),
     technique="Lean 4 proof over executable transition system + schedule-controlled differential correspondence and trace validation")
 MODULE = "IwModel.Props.C20"
-THEOREMS = []
+THEOREMS = ["IwModel.C20." + t for t in (
+    "stw_inv stw_accepted_once stw_started_nodup stw_fifo stw_shutdown_drains stw_drop_exact stw_reported stw_bounded "
+    "stw_full_policy stw_no_lost_wakeup stw_deadlock_free stw_disabled_step stw_unfixed_accepts_after_shutdown "
+    "stw_unfixed_discard_crashes stw_uaf_reachable").split()]
 
 WRAPS = ("pthread_mutex_lock", "pthread_mutex_unlock", "pthread_cond_wait", "pthread_cond_broadcast",
          "pthread_cond_signal", "pthread_create", "pthread_join", "pthread_detach")
